@@ -103,7 +103,8 @@ PROPS = {
         'reachable-state theorems (C02_rack_invariant, C02_rack_timer_inert) assume RunOK: a new chunk gets a TSN that is not in flight, only in-flight chunks are retransmitted, a valid SRTT reading is not negative (proved for the generated conversion over Rat)',
         'time.Time is modelled as Int nanoseconds with the zero Time = 0 and every real reading > 0; float64 SRTT enters through the generated conversion sites (Rat in theorems, Float in the driver)',
     ]},
-    'C06': {'jobs': [SAPI, E2E_PR, E2E_T, E2E_API, REASM, ASND, ARACK], 'rule': E2E_RULE, 'assumptions': [
+    'C06': {'jobs': [SAPI, E2E_PR, E2E_T, E2E_API, REASM, ASND, ARACK, RQ], 'rule': E2E_RULE, 'assumptions': [
+        '"at most once" rests on the duplicate filter of the association (receive bitmap, incl. the ranges a FORWARD-TSN clears): the rq correspondence job of C05 runs here too',
         'theorems (Props/C06rack.lean) cover ONE clause only: no loss-recovery path (RACK on SACK, RACK timer, PTO, T3 mark-all) flags an acknowledged or abandoned chunk for retransmission, on Model/Rack.lean (tied by the rk snapshots of the direct-drive harness); integrity / at-most-once / policy bounds remain e2e + Reasm + PolicySpec',
         'theorems cover the API-visible half (DCEP, abandonment decision, retransmission bounds); the receive half (at most once, intact, subsequence) rests on Reasm + e2e predicates',
         'L0 models Sender + Sapi (hand-written, Gen.* decision sites regenerated); oracles: burst budget, pending-queue selection, RACK/PTO marks, T3 expiries per tick, which parked writer wakes',
@@ -151,7 +152,8 @@ PROPS = {
         'run theorems start from any state satisfying WInv / GInv (initial state of every configuration with MTU < 2^30: C18_invariant_reachable)',
         'C18_parked_write_rollback: equality up to the two ghost id allocators nextWid / nextMsg',
         'observation (not a C18 clause): while a write is parked bufferedAmount includes its bytes, and the roll-back subtracts them without onBufferReleased - a low-threshold crossing can be skipped']},
-    'C09': {'jobs': [E2E_TD, E2E_SD, E2E_HS, E2E_ST], 'rule': E2E_RULE, 'assumptions': [
+    'C09': {'jobs': [E2E_TD, E2E_SD, E2E_HS, E2E_ST, TIMER], 'rule': E2E_RULE, 'assumptions': [
+        '"all timers stop": the timer automaton correspondence of C19 (a closed or stopped timer reports nothing, even when its expiry is already in flight) runs here too',
         'theorems are about the hand-written transition system Model/Teardown.lean; its choreography is read off translator facts on every run (C09_choreography_matches_code)',
         'sync.Mutex / sync.Cond / channel / sync.Once semantics as specified by Go; one constructor call per association; API calls only after it returned; '
         'completeHandshake attempted at most once; stream identifiers not reused after a reset',
